@@ -84,6 +84,13 @@ def run(d, tier, inplace=False):
            "tail": out.strip().splitlines()[-4:]}
     meta.setdefault("check_results", {})[tier] = res
     json.dump(meta, open(os.path.join(d, "meta.json"), "w"), indent=1, ensure_ascii=False)
+    if meta.get("kind") == "harmless":
+        # a behaviour-preserving refactoring: the wanted outcome is silence; an alarm that names no failing input
+        # is what the brief allows for a broken tie, an alarm WITH a failing input would be a false alarm of the oracle
+        word = "QUIET" if rc == 0 else ("ALARM with failing input (FALSE ALARM)" if res["concrete_input"] else
+                                         "ALARM no-failing-input-found (tie broken)" if detected else "ERROR rc=%d" % rc)
+        print("%s [%s] %s: %s (%.0fs)" % (os.path.basename(d), pid, tier, word, res["wall_s"]))
+        return 0 if rc == 0 else 1
     print("%s [%s] %s: %s%s (%.0fs)" % (os.path.basename(d), pid, tier, "DETECTED" if detected else "MISSED",
                                        " with failing input" if res["concrete_input"] else "", res["wall_s"]))
     return 0 if detected else 1
